@@ -25,6 +25,7 @@ ASSUMPTIONS = ["the ZCash format as written in vf/model/bls12381.py (sign = lexi
                "nine Ethereum signatures / three public keys",
                "words are 384-bit non-negative integers (other lengths are C04's domain)"]
 ENGINE = "hypothesis + exhaustive flag/value grids"
+TECHNIQUE = ("round-trip and differential property-based testing (Hypothesis) + exhaustive flag/value grids + atheris/libFuzzer campaigns (thorough) against a model of the ZCash format")
 _REQ = ["rt:G1:non_subgroup", "rt:G2:non_subgroup", "rt:G2:y_im=0", "rt:G2:y_re=0", "rt:G1:y_at_boundary", "rt:G2:y_at_boundary",
         "rt:G1:inf", "rt:G2:inf", "rt:G1:scaled", "rt:G2:scaled", "word:G1:accept", "word:G2:accept",
         "word:G1:reject:x>=p", "word:G2:reject:x1>=p", "word:G2:reject:x0>=p",
